@@ -155,7 +155,9 @@ def _sem_laws(rep, stats) -> None:
     must find counterexamples, every gap must be reached, and the law must apply somewhere."""
     holds = ['MC_Laws_cls.cfg', 'MC_Laws_union.cfg', 'MC_Laws_tagged.cfg', 'MC_Laws_shipped.cfg']
     if rep.tier == 'thorough':
-        holds += ['MC_Laws_scalar.cfg', 'MC_Laws_names.cfg', 'MC_Laws_core.cfg']
+        # (not the core family at depth 2: TokFor reads the string facts for every token of every state, and TLC opens the
+        #  facts file anew each time - 'Too many open files' with 16 workers on 260 k states)
+        holds += ['MC_Laws_scalar.cfg', 'MC_Laws_names.cfg']
     out = {}
     for cfg in holds:
         r = engine.model_check('MC_Laws', cfg, dump=False)
